@@ -90,11 +90,29 @@ def run(R):
         for pos, ev in fn.events():
             if ev.get("k") == "decl" and ev.get("name") == "numToLaunch":
                 n += 1
-                i = strip_casts(ev.get("init"))
+                ex = lambda x: strip_casts(fn.expand_expr(x, use_block=pos.b))
+
+                def wait_amount(x):   # options.wait, (options.wait ? 1 : 0), or a named copy of either
+                    x = ex(x)
+                    if not isinstance(x, dict):
+                        return False
+                    if x.get("k") == "member" and x.get("fname") == "wait":
+                        return True
+                    if x.get("k") == "cond":
+                        c = strip_casts(x.get("c"))
+                        return isinstance(c, dict) and c.get("fname") == "wait" and const_val(x.get("t")) == 1 and const_val(x.get("f")) == 0
+                    return False
+
+                def cap_minus_caller(a):
+                    a = ex(a)
+                    if not (isinstance(a, dict) and a.get("k") == "bin" and a.get("op") == "-"):
+                        return False
+                    l = ex(a.get("l"))
+                    return isinstance(l, dict) and l.get("name") == "maxThreads" and wait_amount(a.get("r"))
+                i = ex(ev.get("init"))
                 ok = isinstance(i, dict) and i.get("k") == "call" and i.get("callee") == "std::min"
                 if ok:
-                    ok = any(isinstance(strip_casts(a), dict) and strip_casts(a).get("k") == "bin" and strip_casts(a).get("op") == "-" and strip_casts(strip_casts(a).get("l")).get("name") == "maxThreads"
-                             and strip_casts(strip_casts(a).get("r")).get("fname") == "wait" for a in i.get("args", []))
+                    ok = any(cap_minus_caller(a) for a in i.get("args", []))
                 R.ob("C48.launch-count", fn, ev, ok, "numToLaunch = min(maxThreads - options.wait, N)" if ok else "launched workers not bounded by maxThreads minus the caller: %s" % expr_str(i), sitekey="numToLaunch", why=WHY)
         # serial gate
         disp = [(p, e) for p, e in fn.events() if e.get("k") == "call" and e.get("callee") and re.search(r"parallel_for_(staticImpl|dynamicImpl|adaptiveWaitDispatch|dynamicNoWaitDispatch)$", e["callee"])]
